@@ -199,7 +199,8 @@ def gen(rnd):
         env = {"HTTP_PROXY": "http://env.proxy.test:3128", "HTTPS_PROXY": "http://env.proxy.test:3128"}
     direct = pshape in ("none", "empty", "other_scheme_only")
     # the proxy's reply
-    rk = rnd.choice(["200", "200", "200", "status", "status_odd", "unterminated_eof", "oversize", "oversize_lines", "empty", "oserr", "exc", "garbage", "connect_refused", "send_fault"])
+    rk = rnd.choice(["200", "200", "200", "status", "status_odd", "unterminated_eof", "oversize", "oversize_lines", "empty", "oserr", "exc", "garbage", "connect_refused", "send_fault",
+                     "interim_then_200", "limit"])
     status = b"200"
     reply = b""
     script = []
@@ -212,6 +213,30 @@ def gen(rnd):
         reply = b"HTTP/1.1 " + status + b" " + rnd.choice([b"Connection established", b"OK", b"Nope"]) + b"\r\n" + rnd.choice([b"", b"Proxy-Agent: t\r\n", b"Via: 1.1 x\r\nX-A: b\r\n"]) + b"\r\n"
         chunks = scen.chunkings(rnd, reply, rnd.choice(["one", "bytes", "random", "small"]), maxchunk=1024)
         script = [("data", c) for c in chunks]
+    elif rk == "interim_then_200":
+        # the first header block is the proxy's answer: a 1xx block is not a 200, whatever follows it
+        reply = b"HTTP/1.1 " + rnd.choice([b"100 Continue", b"102 Processing", b"103 Early Hints", b"101 Switching Protocols", b"199 X"]) + b"\r\n" + rnd.choice([b"", b"X-A: b\r\n"]) + b"\r\n" + \
+            b"HTTP/1.1 200 Connection established\r\n\r\n"
+        script = [("data", c) for c in scen.chunkings(rnd, reply, rnd.choice(["one", "bytes", "random"]), maxchunk=1024)]
+        expect = "fail"
+    elif rk == "limit":
+        # a terminated 200 block whose total length sits on the 16 KiB limit (the limit counts the terminator)
+        total = rnd.choice([16380, 16383, 16384, 16385, 16386, 16387, 16388, 16389, 16392])
+        head = b"HTTP/1.1 200 OK\r\nX-Pad: "
+        reply = head + b"p" * (total - len(head) - 4) + b"\r\n\r\n"
+        how = rnd.choice(["1024", "1024", "tail", "bytes-at-end"])
+        if how == "1024":
+            script = [("data", reply[i:i + 1024]) for i in range(0, len(reply), 1024)]
+        elif how == "tail":
+            k = len(reply) - rnd.choice([1, 2, 3, 4, 5])
+            script = [("data", reply[i:i + 1024]) for i in range(0, k, 1024)]
+            script[-1] = ("data", reply[(len(script) - 1) * 1024:k])
+            script.append(("data", reply[k:]))
+        else:
+            k = len(reply) - 8
+            script = [("data", reply[i:min(i + 1024, k)]) for i in range(0, k, 1024)] + [("data", reply[j:j + 1]) for j in range(k, len(reply))]
+        script.append(("eof",))
+        expect = "tunnel" if total <= 16384 else "fail"
     elif rk == "status_odd":
         # a status that only LOOKS like 200: digits outside ASCII, other separators, signs, padding
         st = rnd.choice(["\uff12\uff10\uff10".encode("utf-8"), "\u0662\u0660\u0660".encode("utf-8"), b"2\xef\xbc\x900", b"200.0", b"2 00", b"200\xc2\xa0OK", b"200\xef\xbc\x90"])
@@ -412,7 +437,7 @@ def run(rep, info, model, tier, seed):
     if dis and not rep.violations:
         rep.broken("correspondence C19: model and implementation disagree on %d cases; first %r" % (dis, first))
     rep.families.append(dict(name="C19:proxy-replies", cases=n, disagreements=dis,
-                             rule="real WebsocketSession._connect/_connect_proxy against a fake socket module: proxy URL shapes (default/explicit port, credentials with/without password, https proxy, empty/None/absent entry, entry for the other scheme only, no proxies argument with HTTP_PROXY/HTTPS_PROXY in the environment, an explicit -- also empty -- argument against a populated environment) x ws/wss targets x replies (200, other statuses, unterminated+EOF, oversize, empty, socket error / exception at any recv, garbage, refused connect, failing CONNECT write) in every segmentation; all socket operations are logged and judged"))
+                             rule="real WebsocketSession._connect/_connect_proxy against a fake socket module: proxy URL shapes (default/explicit port, credentials with/without password, https proxy, empty/None/absent entry, entry for the other scheme only, no proxies argument with HTTP_PROXY/HTTPS_PROXY in the environment, an explicit -- also empty -- argument against a populated environment) x ws/wss targets x replies (200, other statuses, a 1xx block followed by a 200 block, terminated blocks of 16380..16392 bytes, unterminated+EOF, oversize, empty, socket error / exception at any recv, garbage, refused connect, failing CONNECT write) in every segmentation; all socket operations are logged and judged"))
     if not proof_ok and not rep.violations:
         rep.broken("proof obligation props/C19.v no longer checks: %s" % (rep.coq_failure,))
 
